@@ -10,8 +10,9 @@ use crate::steps::*;
 
 pub struct C06Enum;
 
-/// Client channels with the protocol check: 0 acks, 1 protocol hash trigger, 2 CeOrd, 3 CeMap, 4 CtTrig.
-const CHANNELS: u64 = 5;
+/// Client channels with the protocol check: 0 acks, 1 protocol hash trigger, 2 CeOrd, 3 CeMap, 4 CtTrig,
+/// 5 CeUnord, 6 CeUnrel.
+const CHANNELS: u64 = 7;
 
 fn profile() -> Profile {
     let mut p = Profile { clients: 2, slots: 2, heal_rounds: 8, ..Default::default() };
@@ -143,7 +144,7 @@ impl Engine for C06Enum {
         vec![]
     }
     fn rule() -> &'static str {
-        "enumerated sub-batch: every byte string of length 0..2 (thorough: also length 3 on the acknowledgement and protocol-hash channels) is injected on each of the 5 client channels from an authorised and from an unauthorised client, one server frame per string, while an honest client keeps replicating; one evaluation is one chunk of 256-257 strings. Every string of the stated space is tried, so this sub-batch is exhaustive for that space; distinct_nontrivial counts distinct simulator state signatures as in the seeded batches"
+        "enumerated sub-batch: every byte string of length 0..2 (thorough: also length 3 on the acknowledgement and protocol-hash channels) is injected on each of the 7 client channels from an authorised and from an unauthorised client, one server frame per string, while an honest client keeps replicating; one evaluation is one chunk of 256-257 strings. Every string of the stated space is tried, so this sub-batch is exhaustive for that space; distinct_nontrivial counts distinct simulator state signatures as in the seeded batches"
     }
     fn components() -> serde_json::Value {
         json!({"real_code": ["bevy_replicon server receive paths (acks, client events, client triggers, protocol check)"], "simulated": ["the malicious client (raw bytes handed to RepliconServer::insert_received)", "transport, clock"]})
